@@ -29,11 +29,11 @@ HEADER = ("samptype", "sampsize", "sampcount", "samprate", "chancount", "inporde
 
 
 def run(ctx):
-    g711(ctx)
-    reads(ctx)
-    returned_buffer(ctx)
-    header(ctx)
-    conversions(ctx)
+    ctx.rule(g711)
+    ctx.rule(reads)
+    ctx.rule(returned_buffer)
+    ctx.rule(header)
+    ctx.rule(conversions)
 
 
 # ---------------------------------------------------------------- R-C12-g711
